@@ -168,8 +168,8 @@ SPECS["C02"] = {
          "thorough": {"params": {"WORKERS": 1, "DEPTH": 2, "MAXEVS": 5, "P": 0}, "unwind": 40, "wall_s": 1500}},
         {"name": "H2-cascade-schedules", "pkg": "engine", "files": ["engine/c02.go"], "fn": "VerifC02Cascade",
          "what": "2 workers, all schedules with <=1 (quick) / <=2 (thorough) pre-emptions, depth 1, <=3 events", "reach": ["returned"],
-         "quick": {"params": {"WORKERS": 2, "DEPTH": 1, "MAXEVS": 2, "P": 1}, "unwind": 40, "wall_s": 400},
-         "thorough": {"params": {"WORKERS": 2, "DEPTH": 1, "MAXEVS": 3, "P": 2}, "unwind": 40, "wall_s": 2400}},
+         "quick": {"params": {"WORKERS": 2, "DEPTH": 1, "MAXEVS": 2, "P": 1}, "two_pass": True, "pass1_preempt": 1, "unwind": 40, "wall_s": 600},
+         "thorough": {"params": {"WORKERS": 2, "DEPTH": 1, "MAXEVS": 3, "P": 2}, "two_pass": True, "pass1_preempt": 1, "unwind": 40, "wall_s": 3000}},
         {"name": "H2-two-cascades", "pkg": "engine", "files": ["engine/c02.go"], "fn": "VerifC02TwoCascades",
          "what": "two cascades in flight, 1 worker sequential (quick) / 2 workers P<=1 (thorough)", "reach": ["second-returned", "all-idle"],
          "quick": {"params": {"WORKERS": 1, "DEPTH": 1, "MAXEVS": 5, "P": 0}, "unwind": 40, "wall_s": 300},
@@ -198,6 +198,10 @@ SPECS["C01"] = {
          "what": "running 1-worker processor, 2 rules, sequence of events with symbolic names {n1,n2} and kinds (trigger cache)", "reach": ["event-done"],
          "quick": {"params": {"R": 2, "S": 2, "EVENTS": 2}, "unwind": 60, "wall_s": 600},
          "thorough": {"params": {"R": 2, "S": 2, "EVENTS": 3}, "unwind": 60, "wall_s": 2400}},
+        {"name": "H3-history-state", "pkg": "engine", "files": ["engine/c01.go"], "fn": "VerifC01History",
+         "what": "same with state rules (1 key, pattern kinds nil/number/string/regexp) and event states symbolic: earlier events of the same kind with other states must not change what a later event fires", "reach": ["event-done"],
+         "quick": {"params": {"R": 2, "S": 1, "EVENTS": 2, "STATE": 1, "KEYS": 1}, "unwind": 60, "wall_s": 600},
+         "thorough": {"params": {"R": 2, "S": 1, "EVENTS": 3, "STATE": 1, "KEYS": 1}, "unwind": 60, "wall_s": 2400}},
         {"name": "H4-scope-suppression", "pkg": "engine", "files": ["engine/c01.go"], "fn": "VerifC01ScopeSuppression",
          "what": "cascade scope over 4 paths (defined/allow symbolic), per-rule scope requirements over 4 paths and suppression matrix symbolic", "reach": ["built", "processed"],
          "quick": {"params": {"R": 2}, "unwind": 60, "wall_s": 600},
@@ -252,6 +256,12 @@ SPECS["C16"] = {
          "quick": {"params": {"STATE": k, "NCMD": 1, "MAXARGS": 2}, "unwind": 40, "wall_s": 600},
          "thorough": {"params": {"STATE": k, "NCMD": 1, "MAXARGS": 3}, "unwind": 40, "wall_s": 2400}}
         for k, n in enumerate(["fresh", "finished run", "suspended at top level", "suspended inside a call"])
+    ] + [
+        {"name": "H1-%s-3args-state-%d" % (cn, k), "pkg": "interpreter", "files": _C16, "fn": "VerifC16Total",
+         "what": "state %d, command %s with 0..3 arguments (expressions that parse but fail when evaluated are in the vocabulary)" % (k, cn), "reach": ["state-built", "command-returned", "status-answered"],
+         "quick": {"params": {"STATE": k, "NCMD": 1, "MAXARGS": 3, "CMD": ci}, "unwind": 40, "wall_s": 600},
+         "thorough": None}
+        for (cn, ci) in (("extract", 8), ("inject", 9)) for k in (2, 3)
     ] + [
         {"name": "H2-two-commands-state-%d" % k, "pkg": "interpreter", "files": _C16, "fn": "VerifC16Total",
          "what": "state %d, two command lines with 0..1 arguments each" % k, "reach": ["state-built", "command-returned", "status-answered"],
@@ -328,6 +338,10 @@ SPECS["C12"] = {
          "what": "2 threads, 2 names, fall-through exits: different names overlap (reachability), same names exclude", "reach": ["all-done", "later-entrant-done", "different-names-overlap"],
          "quick": {"params": {"T": 2, "P": 1, "NAMES": 2, "TIDS": 3, "EXITS": 1}, "unwind": 60, "wall_s": 900},
          "thorough": None},
+        {"name": "H1-threads-2-P2", "pkg": "interpreter", "files": _C12, "fn": "VerifC12Mutex",
+         "what": "2 threads on one name, one (quick) / two (thorough) blocks each with a nested re-entrant block, fall-through exits, thread ids 0/1, all schedules with <= 2 pre-emptions (release/registration hand-over windows)", "reach": ["all-done", "later-entrant-done"],
+         "quick": {"params": {"T": 2, "P": 2, "NAMES": 1, "TIDS": 2, "EXITS": 1, "TWICE": 0}, "unwind": 60, "wall_s": 900},
+         "thorough": {"params": {"T": 2, "P": 2, "NAMES": 1, "TIDS": 2, "EXITS": 1, "TWICE": 1}, "unwind": 60, "wall_s": 5400}},
         {"name": "H1-threads-3", "pkg": "interpreter", "files": _C12, "fn": "VerifC12Mutex",
          "what": "3 threads on one name, P=1", "reach": ["all-done", "later-entrant-done"],
          "quick": None,
